@@ -14,7 +14,9 @@ from .common import enc_list, Toks, dec_ext
 RULE = ('einsum signatures: 0..3 operands of 0..3 dims over <= 4 index letters (incl. a letter repeated inside one operand: trace / diagonal), '
         'random output list (subset of the letters, any order); one index type per letter (depth <= 2, sizes {0,1,2,3}), operands = typed random '
         'patterns incl. broadcast (expand) operands and shared physical axes; x 4 semirings x requires_grad; mv/mm shorthands; '
-        'non-trivial = some operand is not dense and at least one index is summed out')
+        'non-trivial = some operand is not dense and at least one index is summed out; strided streams: project on random non-contiguous / '
+        'offset virtual tensors with substitutions obtained by unification, reduce_equation / post_einsum on random broadcast operands '
+        '(views, reduced equation, unsqueeze positions, output shape compared exactly); representation stream of the patterned einsum')
 ASSUMPTIONS = ['torch_semiring_einsum kernels are exercised, not modelled', 'Log: compared through exp within 1e-9 relative']
 
 REAL_V = [0.0, 1.0, 2.0, 0.5, 3.0]
